@@ -152,7 +152,7 @@ def starts(n, lb, ub, which=(0, 1, 2)):
     return out
 
 
-def mk(n, obj, rows, var_kinds, x0_idx=2, tight=True, fmt="coo", policy="fresh", y0=None):
+def mk(n, obj, rows, var_kinds, x0_idx=2, tight=True, fmt="coo", policy="fresh", y0=None, idtype=False):
     """rows: list of (fn, kind)."""
     lb, ub = var_bounds(var_kinds, tight=tight)
     o = objective(obj, n) if isinstance(obj, str) and obj != "logbar" else (
@@ -160,7 +160,7 @@ def mk(n, obj, rows, var_kinds, x0_idx=2, tight=True, fmt="coo", policy="fresh",
     rs = [row(fn, kind, n, idx=i) for i, (fn, kind) in enumerate(rows)]
     x0 = project(LATTICE[x0_idx][:n], lb, ub)
     return {"n": n, "obj": o, "rows": rs, "var_lb": lb, "var_ub": ub, "x0": x0,
-            "y0": y0 if y0 is not None else [0.0] * len(rs), "fmt": fmt, "policy": policy,
+            "y0": y0 if y0 is not None else [0.0] * len(rs), "fmt": fmt, "policy": policy, "idtype": idtype,
             "tag": f"n{n}|{obj if isinstance(obj, str) else 'custom'}|{','.join(f + ':' + k for f, k in rows)}|{','.join(var_kinds)}|s{x0_idx}"}
 
 
